@@ -142,7 +142,8 @@ def parse_response(frags, close_at_end=True, method="GET"):
 
 
 def classify_c13(data, meta):
-    """known terminator-precedence pattern: bare-LF line endings with a CRLF somewhere later in the bytes (or the reverse mix)"""
+    """terminator-precedence pattern: bare-LF line endings with a CRLF somewhere later in the bytes (or the reverse mix).
+    Repaired in /repo by fa9054b; no known finding lists this class any more, so a recurrence is reported as a violation."""
     if meta["eol"] == b"\n" and b"\r\n" in data:
         return "terminator-precedence"
     return ""
@@ -258,12 +259,21 @@ NEAR_VALID = [
     b"GET / HTTP/1.1\r\n" + b"A" * 70000 + b"\r\n\r\n", b"GET " + b"/" * 70000, b"GET / HTTP/1.1\r\n" + b"".join(b"H%d: v\r\n" % i for i in range(150)) + b"\r\n",
     b"\x00\x01\x02\xff\xfe", b"GET / HTTP/1.1\r\nHost: \xff\xfe\r\n\r\n", b"GET /\xff HTTP/1.1\r\n\r\n", b"POST / HTTP/1.1\r\nTransfer-Encoding: chunked\r\n\r\n5;a=b\r\nhello\r\n0\r\n\r\n",
     b"POST / HTTP/1.1\r\nTransfer-Encoding: chunked\r\n\r\n0\r\nBadTrailer\r\n\r\n",
+    # a url that only becomes invalid once unquoted; a JSON body nested deeper than the interpreter's recursion limit
+    b"GET http://%5B/ HTTP/1.1\r\n\r\n", b"GET /%5B::1 HTTP/1.1\r\nHost: h\r\n\r\n",
+    b"POST / HTTP/1.1\r\nContent-Type: application/json\r\nContent-Length: 100000\r\n\r\n" + b"[" * 100000,
 ]
 NEAR_VALID_RESP = [
     b"HTTP/1.1 200 OK\r\nNoColon\r\n\r\n", b"HTTP/1.1 abc OK\r\n\r\n", b"HTTP/1.1 99 X\r\n\r\n", b"HTTP/1.1 1000 X\r\n\r\n", b"BAD\r\n\r\n", b"HTTP/1.1 200 OK\r\nContent-Length: -3\r\n\r\n",
     b"HTTP/1.1 200 OK\r\nContent-Length: zz\r\n\r\nabc", b"HTTP/1.1 200 OK\r\nTransfer-Encoding: chunked\r\n\r\nzz\r\n", b"HTTP/1.1 200 OK\r\nTransfer-Encoding: chunked\r\n\r\n3\r\nabcXX",
     b"HTTP/1.1 200 OK\r\nTransfer-Encoding: chunked\r\n\r\n\xff\r\n", b"HTTP/1.1 200 OK\r\n" + b"A" * 70000, b"\xff\xfe\x00", b"HTTP/1.1 301 Moved\r\nLocation: http://[::1/x\r\n\r\n",
     b"HTTP/1.1 200 OK\r\nContent-Type: application/json\r\nContent-Length: 3\r\n\r\n{{{", b"HTTP/1.1 200 OK\r\nContent-Type: text/event-stream\r\n\r\nretry: x\n\ndata: \xff\n\n",
+    # event-stream fields with values that look numeric but are not (superscript two is a digit, int() rejects it), an over-long number,
+    # signs and blanks, NUL in an id, a field without a name; a JSON body nested deeper than the recursion limit
+    b"HTTP/1.1 200 OK\r\nContent-Type: text/event-stream\r\n\r\nretry: \xc2\xb2\n\ndata: a\n\n", b"HTTP/1.1 200 OK\r\nContent-Type: text/event-stream\r\n\r\nretry: " + b"9" * 5000 + b"\n\ndata: a\n\n",
+    b"HTTP/1.1 200 OK\r\nContent-Type: text/event-stream\r\n\r\nretry: -1\nretry: +5\nretry:  7 \nretry: 1_0\nretry: \xd9\xa3\n\ndata: a\n\n",
+    b"HTTP/1.1 200 OK\r\nContent-Type: text/event-stream\r\n\r\nid: a\x00b\n:\n: c\n=\ndata\ndata: a\n\n",
+    b"HTTP/1.1 200 OK\r\nContent-Type: application/json\r\nContent-Length: 100000\r\n\r\n" + b"[" * 100000,
 ]
 
 
@@ -289,6 +299,14 @@ def make_http_server(app=None, n=1, bare=False):
 def simple_app(environ, start_response):
     start_response("200 OK", [("Content-Type", "text/plain"), ("Content-Length", "2")])
     return [b"ok"]
+
+
+def raise_site(ex):
+    """ExceptionType@innermost-hio-function: a witness class that names WHERE the service loop raised, so that a recorded finding
+    does not absorb a different escape of the same exception type"""
+    import traceback
+    fr = [f for f in traceback.extract_tb(ex.__traceback__) if "/hio/" in f.filename.replace("\\", "/")]
+    return "%s@%s" % (type(ex).__name__, fr[-1].name if fr else "?")
 
 
 def run_c16(rnd, tier, v, stats):
@@ -317,10 +335,10 @@ def run_c16(rnd, tier, v, stats):
             stats["evals"] += 1
             stats["distinct"].add(data)
             try:
-                for _ in range(6):
+                for _ in range(6 + len(data) // 4000):       # (a long request needs one pass per receive buffer)
                     srv.service()
             except Exception as ex:   # noqa
-                cls = "bareserver-dict-mutation" if bare and isinstance(ex, (RuntimeError, KeyError)) else type(ex).__name__
+                cls = "bareserver-dict-mutation" if bare and type(ex) in (RuntimeError, KeyError) else raise_site(ex)
                 v("C16/server-service-raises" + ("-bare" if bare else ""), dict(bytes=data[:80].decode("latin-1"), witness_class=cls), repr(ex)[:120])
                 continue
             if not bare and b"200 OK" not in good.wire:
@@ -336,10 +354,10 @@ def run_c16(rnd, tier, v, stats):
         stats["evals"] += 1
         try:
             cl.request(method="GET", path="/x")
-            for _ in range(6):
+            for _ in range(6 + len(data) // 4000):
                 cl.service()
         except Exception as ex:   # noqa
-            v("C16/client-service-raises", dict(bytes=data[:80].decode("latin-1"), witness_class=type(ex).__name__), repr(ex)[:120])
+            v("C16/client-service-raises", dict(bytes=data[:80].decode("latin-1"), witness_class=raise_site(ex)), repr(ex)[:120])
 
 
 def run_for(pid, tier="quick", seed=0):
@@ -821,7 +839,8 @@ def run_c15(rnd, tier, v, stats):
             for f, val in lines:
                 e = {"lf": b"\n", "crlf": b"\r\n", "cr": b"\r"}.get(eols_mode) or rnd.choice([b"\n", b"\r\n", b"\r"])
                 stream += ((": " + val) if f is None else (f + ": " + val)).encode("utf-8") + e
-            stream += {"lf": b"\n", "crlf": b"\r\n", "cr": b"\r"}.get(eols_mode) or rnd.choice([b"\n", b"\r\n", b"\r"])
+            # (mixed: a blank line written as LF right after a CR-terminated line would BE a CRLF, one terminator and no blank line)
+            stream += {"lf": b"\n", "crlf": b"\r\n", "cr": b"\r"}.get(eols_mode) or rnd.choice([b"\n", b"\r\n", b"\r"] if not stream.endswith(b"\r") else [b"\r\n", b"\r"])
         exp, leid, retry = sse_reference(src)
         transport = rnd.choice(["plain", "chunked"])
         head = b"HTTP/1.1 200 OK\r\nContent-Type: text/event-stream\r\n" + (b"Transfer-Encoding: chunked\r\n" if transport == "chunked" else b"") + b"\r\n"
@@ -862,8 +881,9 @@ def run_c15(rnd, tier, v, stats):
             got = [dict(id=e["id"] if e["id"] is not None else "", name=e["name"], data=e["data"]) for e in rp.events]
             if err or got != exp or (exp and (rp.leid != leid and leid is not None)) or (retry is not None and rp.retry != retry):
                 cls = ""
-                if eols_mode in ("cr", "mixed", "crlf"):
-                    cls = "cr-terminators"        # recorded findings: terminator precedence + CR at a fragment end
+                if b"\r\n" in stream:
+                    cls = "crlf-split-across-reads"        # recorded finding: a CRLF whose CR ends one read and whose LF starts the next
+                                                           # is taken as CR then LF (a spurious empty line: the event is dispatched early)
                 v("C15/events-differ", dict(inp, cuts=[len(p) for p in parts][:10], witness_class=cls), dict(events=got[:4], leid=rp.leid, retry=rp.retry, err=err), dict(events=exp[:4], leid=leid, retry=retry))
                 break
 
